@@ -252,7 +252,7 @@ func runFuzz(seconds, workers int) {
 		return
 	}
 	defer os.RemoveAll(scratch)
-	pkgDir := "/verif/harness/node/fuzz/c05"
+	pkgDir := vlib.Home() + "/harness/node/fuzz/c05"
 	crashDir := filepath.Join(pkgDir, "testdata", "fuzz", "FuzzUnmarshal")
 	_ = os.RemoveAll(filepath.Join(pkgDir, "testdata"))
 	cmd := exec.Command("go", "test", "-tags", "verif", "-vet=off", "-run", "^$", "-fuzz", "^FuzzUnmarshal$", "-fuzztime", fmt.Sprintf("%ds", seconds),
@@ -291,7 +291,7 @@ func runFuzz(seconds, workers int) {
 		if es, e := os.ReadDir(crashDir); e == nil {
 			for _, e := range es {
 				b, _ := os.ReadFile(filepath.Join(crashDir, e.Name()))
-				dst := filepath.Join("/verif/replays", "C05-fuzz-"+e.Name())
+				dst := filepath.Join(vlib.Home(), "replays", "C05-fuzz-"+e.Name())
 				_ = os.WriteFile(dst, b, 0o644)
 				crashers = append(crashers, dst)
 			}
